@@ -275,10 +275,13 @@ func newUDPSession(conv uint32, dataShards, parityShards int, l *Listener, conn 
 func (s *UDPSession) Read(b []byte) (n int, err error) {
 	var timeout *time.Timer
 	var c <-chan time.Time
+	var armed time.Time // the deadline this call has armed (zero: none)
 
 RESET_TIMER:
 	// deadline for current reading operation
+	armed = time.Time{}
 	if trd, ok := s.rd.Load().(time.Time); ok && !trd.IsZero() {
+		armed = trd
 		if timeout == nil {
 			timeout = time.NewTimer(time.Until(trd))
 			c = timeout.C
@@ -287,6 +290,7 @@ RESET_TIMER:
 			// Pre-Go 1.23: Reset does not drain the channel;
 			// callers must drain at the goto-site before arriving here.
 			timeout.Reset(time.Until(trd))
+			c = timeout.C // re-enable after a cleared deadline
 		}
 	} else if timeout != nil {
 		timeout.Stop()
@@ -301,6 +305,7 @@ RESET_TIMER:
 		if len(s.bufptr) > 0 {
 			n = copy(b, s.bufptr)
 			s.bufptr = s.bufptr[n:]
+			s.wakeNextReader()
 			s.mu.Unlock()
 			atomic.AddUint64(&DefaultSnmp.BytesReceived, uint64(n))
 			return n, nil
@@ -311,6 +316,7 @@ RESET_TIMER:
 			// from kcp.recv() to 'b', like 'DMA'.
 			if len(b) >= size {
 				s.kcp.Recv(b)
+				s.wakeNextReader()
 				s.mu.Unlock()
 				atomic.AddUint64(&DefaultSnmp.BytesReceived, uint64(size))
 				return size, nil
@@ -329,6 +335,7 @@ RESET_TIMER:
 			n = copy(b, s.recvbuf)   // then copy bytes to 'b' as many as possible
 			s.bufptr = s.recvbuf[n:] // pointer update
 
+			s.wakeNextReader()
 			s.mu.Unlock()
 			atomic.AddUint64(&DefaultSnmp.BytesReceived, uint64(n))
 			return n, nil
@@ -348,8 +355,13 @@ RESET_TIMER:
 					default:
 					}
 				}
-				goto RESET_TIMER
 			}
+			// a deadline change must reach every blocked reader, not only
+			// the one that received this event: pass it on
+			if trd, _ := s.rd.Load().(time.Time); !trd.Equal(armed) {
+				s.notifyReadEvent()
+			}
+			goto RESET_TIMER
 		case <-c:
 			return 0, errors.WithStack(errTimeout)
 		case <-s.chSocketReadError:
@@ -367,9 +379,12 @@ func (s *UDPSession) Write(b []byte) (n int, err error) { return s.WriteBuffers(
 func (s *UDPSession) WriteBuffers(v [][]byte) (n int, err error) {
 	var timeout *time.Timer
 	var c <-chan time.Time
+	var armed time.Time // the deadline this call has armed (zero: none)
 
 RESET_TIMER:
+	armed = time.Time{}
 	if twd, ok := s.wd.Load().(time.Time); ok && !twd.IsZero() {
+		armed = twd
 		if timeout == nil {
 			timeout = time.NewTimer(time.Until(twd))
 			c = timeout.C
@@ -378,6 +393,7 @@ RESET_TIMER:
 			// Pre-Go 1.23: Reset does not drain the channel;
 			// callers must drain at the goto-site before arriving here.
 			timeout.Reset(time.Until(twd))
+			c = timeout.C // re-enable after a cleared deadline
 		}
 	} else if timeout != nil {
 		timeout.Stop()
@@ -421,6 +437,10 @@ RESET_TIMER:
 				// we don't have to wait until the periodical update() procedure uncorks.
 				s.kcp.flush(IKCP_FLUSH_FULL)
 			}
+			// room left: let the next blocked writer proceed as well
+			if waitsnd < int(s.kcp.snd_wnd) {
+				s.notifyWriteEvent()
+			}
 			s.mu.Unlock()
 			atomic.AddUint64(&DefaultSnmp.BytesSent, uint64(n))
 			return n, nil
@@ -440,8 +460,13 @@ RESET_TIMER:
 					default:
 					}
 				}
-				goto RESET_TIMER
 			}
+			// a deadline change must reach every blocked writer, not only
+			// the one that received this event: pass it on
+			if twd, _ := s.wd.Load().(time.Time); !twd.Equal(armed) {
+				s.notifyWriteEvent()
+			}
+			goto RESET_TIMER
 		case <-c:
 			return 0, errors.WithStack(errTimeout)
 		case <-s.chSocketWriteError:
@@ -933,6 +958,14 @@ func (s *UDPSession) SendOOB(data []byte) error {
 		// OOB delivery is best-effort by design.
 		defaultBufferPool.Put(buf)
 		return nil
+	}
+}
+
+// wakeNextReader passes the read event on when data is left for another
+// blocked reader (the event channel holds a single token). Called with s.mu held.
+func (s *UDPSession) wakeNextReader() {
+	if len(s.bufptr) > 0 || s.kcp.PeekSize() > 0 {
+		s.notifyReadEvent()
 	}
 }
 
